@@ -5,7 +5,7 @@ from .stagefam import run_family
 
 def main(argv):
     return run_family(
-        "C16", "C16", argv, "XRBS",
+        "C16", "C16", argv, "XRBSN",
         nontrivial=lambda s: s["nblocks"] > s["n"] + 1,
         rule="after every stage of every behaviour: list(scfg) and list(concealed_region_view) of the root and of every sub-region at every depth, "
              "checked by TLC against the contract (permutation, head first, each item after a predecessor); non-trivial = the hierarchy has at least one region",
